@@ -1,0 +1,333 @@
+//! Verification hooks (only compiled with `--cfg boa_verif`).
+//!
+//! Nothing in here changes the behaviour of the engine unless one of the thread-local
+//! switches is turned on by a verification harness.
+
+use crate::{
+    Context,
+    vm::{
+        CodeBlock, Constant,
+        opcode::{Address, IndexOperand, RegisterOperand},
+    },
+};
+use boa_ast::scope::BindingLocatorScope;
+use boa_gc::Gc;
+use std::cell::{Cell, RefCell};
+use thin_vec::ThinVec;
+
+thread_local!(static NO_CONST_CACHE: Cell<bool> = const { Cell::new(false) });
+thread_local!(static NO_HOIST: Cell<bool> = const { Cell::new(false) });
+thread_local!(static NO_FUSION: Cell<bool> = const { Cell::new(false) });
+thread_local!(static IC_OFF: Cell<bool> = const { Cell::new(false) });
+thread_local!(static SINK: RefCell<Option<Box<dyn FnMut(BlockDump)>>> = const { RefCell::new(None) });
+
+/// Disables the const binding register cache of the bytecompiler.
+pub fn set_no_const_cache(on: bool) {
+    NO_CONST_CACHE.with(|c| c.set(on));
+}
+/// Disables loop condition operand hoisting in the bytecompiler.
+pub fn set_no_hoist(on: bool) {
+    NO_HOIST.with(|c| c.set(on));
+}
+/// Disables fused compare-and-branch opcodes in the bytecompiler.
+pub fn set_no_fusion(on: bool) {
+    NO_FUSION.with(|c| c.set(on));
+}
+/// Makes every inline cache lookup miss and every inline cache update a no-op.
+pub fn set_ic_off(on: bool) {
+    IC_OFF.with(|c| c.set(on));
+}
+pub(crate) fn no_const_cache() -> bool {
+    NO_CONST_CACHE.with(Cell::get)
+}
+pub(crate) fn no_hoist() -> bool {
+    NO_HOIST.with(Cell::get)
+}
+pub(crate) fn no_fusion() -> bool {
+    NO_FUSION.with(Cell::get)
+}
+pub(crate) fn ic_off() -> bool {
+    IC_OFF.with(Cell::get)
+}
+
+/// Depth probes of the VM of a context.
+#[derive(Debug, Clone, Copy, PartialEq, Eq)]
+pub struct VmDepths {
+    /// Number of call frames.
+    pub frames: usize,
+    /// Length of the value stack.
+    pub stack_len: usize,
+    /// Is there a pending exception.
+    pub pending_exception: bool,
+    /// Host call nesting depth.
+    pub host_call_depth: usize,
+    /// Number of environments of the current frame.
+    pub environments: usize,
+}
+
+/// Returns the depth probes for a context.
+#[must_use]
+pub fn vm_depths(context: &Context) -> VmDepths {
+    VmDepths {
+        frames: context.vm.frames.len(),
+        stack_len: context.vm.stack.verif_len(),
+        pending_exception: context.vm.pending_exception.is_some(),
+        host_call_depth: context.vm.host_call_depth,
+        environments: context.vm.frame().environments.len(),
+    }
+}
+
+/// A decoded operand of an instruction.
+#[derive(Debug, Clone, PartialEq)]
+#[allow(missing_docs)]
+pub enum Operand {
+    Reg(u32),
+    Index(u32),
+    Addr(u32),
+    Int(i64),
+    U64(u64),
+    Float(f64),
+    Regs(Vec<u32>),
+    Addrs(Vec<u32>),
+    U32s(Vec<u32>),
+}
+
+pub(crate) trait VerifOperand {
+    fn verif_operand(&self) -> Operand;
+}
+impl VerifOperand for RegisterOperand {
+    fn verif_operand(&self) -> Operand {
+        Operand::Reg(u32::from(*self))
+    }
+}
+impl VerifOperand for IndexOperand {
+    fn verif_operand(&self) -> Operand {
+        Operand::Index(u32::from(*self))
+    }
+}
+impl VerifOperand for Address {
+    fn verif_operand(&self) -> Operand {
+        Operand::Addr(u32::from(*self))
+    }
+}
+macro_rules! int_operand {
+    ($($t:ty)*) => { $(impl VerifOperand for $t {
+        fn verif_operand(&self) -> Operand { Operand::Int(i64::from(*self)) }
+    })* };
+}
+int_operand!(i8 i16 i32 u8 u16 u32);
+impl VerifOperand for u64 {
+    fn verif_operand(&self) -> Operand {
+        Operand::U64(*self)
+    }
+}
+impl VerifOperand for f32 {
+    fn verif_operand(&self) -> Operand {
+        Operand::Float(f64::from(*self))
+    }
+}
+impl VerifOperand for f64 {
+    fn verif_operand(&self) -> Operand {
+        Operand::Float(*self)
+    }
+}
+impl VerifOperand for ThinVec<RegisterOperand> {
+    fn verif_operand(&self) -> Operand {
+        Operand::Regs(self.iter().map(|r| u32::from(*r)).collect())
+    }
+}
+impl VerifOperand for ThinVec<Address> {
+    fn verif_operand(&self) -> Operand {
+        Operand::Addrs(self.iter().map(|r| u32::from(*r)).collect())
+    }
+}
+impl VerifOperand for ThinVec<u32> {
+    fn verif_operand(&self) -> Operand {
+        Operand::U32s(self.iter().copied().collect())
+    }
+}
+
+/// A decoded instruction.
+#[derive(Debug, Clone)]
+#[allow(missing_docs)]
+pub struct InstrDump {
+    pub pc: u32,
+    pub next_pc: u32,
+    pub name: &'static str,
+    pub fields: Vec<(&'static str, Operand)>,
+}
+
+/// The kind of a constant table entry.
+#[derive(Debug, Clone)]
+#[allow(missing_docs)]
+pub enum ConstDump {
+    String(String),
+    Function(u64),
+    BigInt,
+    Scope {
+        index: u32,
+        function: bool,
+        num_bindings: u32,
+        num_bindings_non_local: u32,
+        all_local: bool,
+        unique_id: u32,
+    },
+}
+
+/// A binding table entry. `scope`: -2 global object, -1 global declarative, n stack index.
+#[derive(Debug, Clone)]
+#[allow(missing_docs)]
+pub struct BindingDump {
+    pub name: String,
+    pub scope: i64,
+    pub binding_index: u32,
+    pub unique_scope_id: u32,
+}
+
+/// Structured dump of one code block.
+#[derive(Debug, Clone)]
+#[allow(missing_docs)]
+pub struct BlockDump {
+    pub debug_id: u64,
+    pub parent: Option<u64>,
+    pub name: String,
+    pub origin: &'static str,
+    pub register_count: u32,
+    pub parameter_length: u32,
+    pub bytes: Vec<u8>,
+    pub instructions: Vec<InstrDump>,
+    /// pc at which decoding failed (ran past the end of the bytes)
+    pub decode_error: Option<u32>,
+    pub constants: Vec<ConstDump>,
+    pub bindings: Vec<BindingDump>,
+    pub ic_len: usize,
+    /// (start, end, environment_count)
+    pub handlers: Vec<(u32, u32, u32)>,
+    pub flags: u16,
+    pub has_function_scope: bool,
+    pub is_generator: bool,
+    pub is_async: bool,
+    pub strict: bool,
+}
+
+/// Installs (or removes) the sink that receives a dump of every code block finished by a
+/// top-level compilation (script, module, eval, `Function()`, `JSON.parse`) on this thread.
+pub fn set_codeblock_sink(sink: Option<Box<dyn FnMut(BlockDump)>>) {
+    SINK.with(|s| *s.borrow_mut() = sink);
+}
+
+pub(crate) fn emit_tree(code: &Gc<CodeBlock>, origin: &'static str) {
+    let active = SINK.with(|s| s.borrow().is_some());
+    if !active {
+        return;
+    }
+    let mut work: Vec<(Gc<CodeBlock>, Option<u64>)> = vec![(code.clone(), None)];
+    while let Some((block, parent)) = work.pop() {
+        let dump = dump_block(&block, parent, origin);
+        for c in &block.constants {
+            if let Constant::Function(f) = c {
+                work.push((f.clone(), Some(block.debug_id)));
+            }
+        }
+        // Take the sink out while calling it so a re-entrant compile cannot double borrow.
+        let sink = SINK.with(|s| s.borrow_mut().take());
+        if let Some(mut sink) = sink {
+            sink(dump);
+            SINK.with(|s| {
+                let mut s = s.borrow_mut();
+                if s.is_none() {
+                    *s = Some(sink);
+                }
+            });
+        }
+    }
+}
+
+/// Dump a single code block.
+#[must_use]
+pub fn dump_block(block: &CodeBlock, parent: Option<u64>, origin: &'static str) -> BlockDump {
+    let bytes = block.bytecode.bytes.to_vec();
+    let mut instructions = Vec::new();
+    let mut decode_error = None;
+    let mut pc = 0usize;
+    while pc < bytes.len() {
+        let res = std::panic::catch_unwind(std::panic::AssertUnwindSafe(|| {
+            block.bytecode.next_instruction(pc)
+        }));
+        match res {
+            Ok((instr, next)) => {
+                let (name, fields) = instr.verif_fields();
+                instructions.push(InstrDump {
+                    pc: pc as u32,
+                    next_pc: next as u32,
+                    name,
+                    fields,
+                });
+                if next <= pc {
+                    decode_error = Some(pc as u32);
+                    break;
+                }
+                pc = next;
+            }
+            Err(_) => {
+                decode_error = Some(pc as u32);
+                break;
+            }
+        }
+    }
+    let constants = block
+        .constants
+        .iter()
+        .map(|c| match c {
+            Constant::String(s) => ConstDump::String(s.to_std_string_escaped()),
+            Constant::Function(f) => ConstDump::Function(f.debug_id),
+            Constant::BigInt(_) => ConstDump::BigInt,
+            Constant::Scope(s) => ConstDump::Scope {
+                index: s.scope_index(),
+                function: s.is_function(),
+                num_bindings: s.num_bindings(),
+                num_bindings_non_local: s.num_bindings_non_local(),
+                all_local: s.all_bindings_local(),
+                unique_id: s.unique_id(),
+            },
+        })
+        .collect();
+    let bindings = block
+        .bindings
+        .iter()
+        .map(|b| BindingDump {
+            name: b.name().to_std_string_escaped(),
+            scope: match b.scope() {
+                BindingLocatorScope::GlobalObject => -2,
+                BindingLocatorScope::GlobalDeclarative => -1,
+                BindingLocatorScope::Stack(n) => i64::from(n),
+            },
+            binding_index: b.binding_index(),
+            unique_scope_id: b.unique_scope_id(),
+        })
+        .collect();
+    BlockDump {
+        debug_id: block.debug_id,
+        parent,
+        name: block.name().to_std_string_escaped(),
+        origin,
+        register_count: block.register_count,
+        parameter_length: block.parameter_length,
+        bytes,
+        instructions,
+        decode_error,
+        constants,
+        bindings,
+        ic_len: block.ic.len(),
+        handlers: block
+            .handlers
+            .iter()
+            .map(|h| (h.start.as_u32(), h.end.as_u32(), h.environment_count))
+            .collect(),
+        flags: block.flags.get().bits(),
+        has_function_scope: block.has_function_scope(),
+        is_generator: block.is_generator(),
+        is_async: block.is_async(),
+        strict: block.strict(),
+    }
+}
